@@ -129,6 +129,15 @@ pub enum VaultError {
 /// dropped by the caller.
 pub struct Recipient { pub _p: () }
 pub uninterp spec fn is_recipient(s: Seq<char>) -> bool;
+/// ASSUMED TYPE INVARIANT of `SharedAccess::WriteAccess(Vec<String>)` (crates/vault/src/vault.rs): every
+/// string is an age x25519 recipient.  Grounds: the one place the repository builds the list
+/// (vault.rs `Vault::asymmetric`) maps `age::x25519::Recipient::to_string()` over parsed recipients
+/// (plus the age assumption that `to_string` output parses back).  NOT enforced by the type: the
+/// field is a plain Vec<String> and serde `Deserialize` accepts any strings; for such a value
+/// `encode` succeeds and `decode` of its output fails (replayed: WriteAccess(["x"])).
+pub open spec fn recipients_inv(r: Seq<Seq<char>>) -> bool {
+    forall|i: int| 0 <= i < r.len() ==> is_recipient(#[trigger] r[i])
+}
 /// R12: `$s.parse()` with target `age::x25519::Recipient` (str::parse = FromStr::from_str)
 #[verifier::external_body]
 pub fn parse_recipient(s: &String) -> (r: core::result::Result<Recipient, &'static str>)
